@@ -33,6 +33,7 @@ import MjwVerif.Lemmas.Real
 import MjwVerif.Lemmas.C38
 import MjwVerif.Gen.Island
 import MjwVerif.Gen.Solver
+import MjwVerif.Gen.Host
 
 namespace Mjw.Props.C38
 open Mjw Mjw.Compact Mjw.Lemmas.C38
@@ -805,5 +806,26 @@ example : snapshot (updateActiveDofs Float 6 4 3 adr3 num3 awake2w 2 false (grid
     (dofs 3,4 first, then 0,1,2), not the dof order: `dof_cdof[0] = 2 > dof_cdof[3] = 0` -/
 example : snapshot (updateActiveDofs Float 5 8 2 adrU numU (fun _ _ => 1) 8 false (grid2 1 8) (grid1 1) mem7) 0 5 8
     = ([2, 3, 4, 0, 1], [3, 4, 0, 1, 2, -1, -1, -1], 5, 0) := by decide
+
+/-! ## Launch grids of the compaction kernels (host level, regenerated `Gen/Host.lean`) -/
+section hostdims
+open Mjw.HostGraph Mjw.Gen.Host
+
+/-- the distinct launch-dimension expressions (source text) of the launches of kernel `k` in `step()` -/
+def launchDims (k : String) : List String :=
+  match nameId k with
+  | kid => (((forward_step.zip forward_step_dims).filter
+              (fun p => p.1.kind == EvKind.launch && p.1.subject == kid)).map (fun p => name p.2)).eraseDups
+
+/-- **reset_compact_maps_grid**: every launch of `_reset_compact_maps` in `step()` runs over the grid
+    `(d.nworld, max(m.nv, d.nvmax_pad))` — the grid assumed by `IsGrid2 o1 nworld (max nv nvmax_pad)` in the theorems
+    above: ALL `nv` entries of `dof_cdof` (not only the first `nvmax_pad`) are reset before `_compact_dofs` runs, so a
+    tree that fell asleep cannot keep the slots it had while awake.  Shrinking the grid (seeded change C38b:
+    `dim=(d.nworld, d.nvmax_pad)`) changes the regenerated side table `forward_step_dims` and breaks this proof. -/
+theorem reset_compact_maps_grid :
+    launchDims "island._reset_compact_maps" = ["dim:(d.nworld, max(m.nv, d.nvmax_pad))"] := by
+  decide +kernel
+
+end hostdims
 
 end Mjw.Props.C38
